@@ -127,6 +127,7 @@ def record_book(core, dp, rnd, f, run, ops, feats, panics, samples):
             path = os.path.join(os.environ.get("VERIF_WORK", "/verif/work"), "scratch", "pyrec_%d.json" % os.getpid())
 
             def rl():
+                b.save_json_snapshot(path, lbl["mode"] != "fp")     # saving over an existing snapshot replaces it
                 b.save_json_snapshot(path, lbl["mode"] == "fp")
                 return core.order_book_from_json(path)
             nb, exc = exc_name(rl)
@@ -306,9 +307,108 @@ def record_env(core, dp, np, mode, rnd, f, run, ops, feats, panics, samples):
     return n
 
 
+# ------------------------------------------------------------------ bourse.step_sim.run (Python runner)
+def record_pysim(core, dp, np, rnd, f, run, ops, feats, panics, samples):
+    """One simulation through the real Python runner bourse.step_sim.run with RandomAgent members.  Every
+    member is wrapped: the wrapper hands the inner agent a proxy of the environment that logs each
+    instruction it submits (as ordinary submit events), brackets the member's update with update_begin /
+    update_end events, and the first member logs, at the start of every round but the first, what the
+    preceding env.step() did.  PyTrace.tla validates the loop structure, the environment's behaviour and
+    the RandomAgent relation."""
+    from bourse.step_sim import run as sim_run
+    from bourse.step_sim.agents import BaseAgent, RandomAgent
+    tick = rnd.choice([1, 2, 5])
+    step = rnd.choice([10, 100, 1000])
+    seed = rnd.randrange(0, 1 << 40)
+    n_steps = rnd.randrange(2, max(ops, 3))
+    na = rnd.randrange(1, 6)
+    base = rnd.randrange(5, 60)
+    cfgs = []
+    for j in range(na):
+        lo = base + rnd.randrange(0, 6)
+        vlo = rnd.randrange(1, 10)
+        cfgs.append({"i": 10 + 3 * j, "rate": rnd.choice([0.0, 0.4, 0.7, 1.0, 1.5]), "tick_lo": lo, "tick_hi": lo + rnd.randrange(1, 8),
+                     "vol_lo": vlo, "vol_hi": vlo + rnd.randrange(1, 20)})
+    for c in cfgs:
+        c["rate_class"] = "zero" if c["rate"] <= 0 else ("one" if c["rate"] >= 1 else "mid")
+    env = core.StepEnv(seed, 0, tick, step, True)
+    ev = {"op": "reset", "mode": "env", "run": run, "seed": seed, "tick": tick, "step": step, "trading": True, "sim": True,
+          "agents": cfgs, "n_steps": n_steps}
+    ev.update(env_obs(env, "env", dp, np, False))
+    out = [ev]
+    state = {"round": 0}
+
+    class Proxy:
+        def __init__(self, e):
+            self._e = e
+
+        def __getattr__(self, name):
+            return getattr(self._e, name)
+
+        def place_order(self, bid, vol, trader_id, price=None):
+            oid = self._e.place_order(bid, vol, trader_id, price=price)
+            x = {"op": "submit", "k": "new", "rows": [{"side": "B" if bid else "A", "vol": int(vol), "tr": int(trader_id), "price": -1 if price is None else int(price)}],
+                 "ret": [oid], "final": False}
+            x.update(env_obs(self._e, "env", dp, np, False))
+            out.append(x)
+            return oid
+
+        def cancel_order(self, order_id):
+            self._e.cancel_order(order_id)
+            x = {"op": "submit", "k": "cancel", "ids": [int(order_id)], "final": False}
+            x.update(env_obs(self._e, "env", dp, np, False))
+            out.append(x)
+
+        def modify_order(self, order_id, new_price=None, new_vol=None):
+            self._e.modify_order(order_id, new_price=new_price, new_vol=new_vol)
+            x = {"op": "submit", "k": "modify", "id": int(order_id), "p": -1 if new_price is None else int(new_price), "v": -1 if new_vol is None else int(new_vol), "final": False}
+            x.update(env_obs(self._e, "env", dp, np, False))
+            out.append(x)
+
+    class Wrapped(BaseAgent):
+        def __init__(self, j, inner):
+            self.j, self.inner = j, inner
+
+        def update(self, rng, e):
+            if self.j == 0:
+                if state["round"] > 0:
+                    x = {"op": "step", "final": False}
+                    x.update(env_obs(e, "env", dp, np, False))
+                    out.append(x)
+                state["round"] += 1
+            x = {"op": "update_begin", "agent": self.j, "final": False}
+            x.update(env_obs(e, "env", dp, np, False))
+            out.append(x)
+            self.inner.update(rng, Proxy(e))
+            x = {"op": "update_end", "agent": self.j, "final": False}
+            x.update(env_obs(e, "env", dp, np, False))
+            out.append(x)
+
+    agents = [Wrapped(j, RandomAgent(c["i"], c["rate"], (c["tick_lo"], c["tick_hi"]), (c["vol_lo"], c["vol_hi"]), tick)) for j, c in enumerate(cfgs)]
+    try:
+        ret = sim_run(env, agents, n_steps, rnd.randrange(0, 1 << 30), show_progress=rnd.random() < 0.3, use_numpy=False)
+        x = {"op": "step", "final": True}
+        x.update(env_obs(env, "env", dp, np, True))
+        out.append(x)
+        md = env.get_market_data()
+        same = set(ret.keys()) == set(md.keys()) and all(list(ret[k]) == list(md[k]) for k in md)
+        out.append({"op": "sim_end", "returned_market_data": bool(same), "rounds": state["round"]})
+    except BaseException as ex:
+        panics.append({"run": run, "what": "bourse.step_sim.run raised %s: %s" % (type(ex).__name__, str(ex)[:200]), "cfg": {"agents": cfgs, "tick": tick, "step": step}})
+    for e in out:
+        f.write(json.dumps(e) + "\n")
+    feats["python_runner_simulations"] = feats.get("python_runner_simulations", 0) + 1
+    feats["python_runner_updates"] = feats.get("python_runner_updates", 0) + sum(1 for e in out if e["op"] == "update_end")
+    feats["python_runner_submissions"] = feats.get("python_runner_submissions", 0) + sum(1 for e in out if e["op"] == "submit")
+    feats["op_step"] = feats.get("op_step", 0) + sum(1 for e in out if e["op"] == "step")
+    if not samples:
+        samples.append({k: v for k, v in out[0].items() if k in ("op", "agents", "n_steps", "tick", "step")})
+    return len(out)
+
+
 def main():
     ap = argparse.ArgumentParser()
-    ap.add_argument("--mode", choices=["book", "env", "numpy"], default=None)
+    ap.add_argument("--mode", choices=["book", "env", "numpy", "sim"], default=None)
     ap.add_argument("--out", required=True)
     ap.add_argument("--seed", type=int, default=1)
     ap.add_argument("--runs", type=int, default=1)
@@ -327,6 +427,8 @@ def main():
         for run in range(a.runs):
             if mode == "book":
                 n += record_book(core, dp, rnd, f, run, a.ops, feats, panics, samples)
+            elif mode == "sim":
+                n += record_pysim(core, dp, np, rnd, f, run, a.ops, feats, panics, samples)
             else:
                 n += record_env(core, dp, np, mode, rnd, f, run, a.ops, feats, panics, samples)
     print(json.dumps({"events": n, "runs": a.runs, "features": feats, "panics": panics, "samples": samples}))
